@@ -3,7 +3,7 @@ import re
 
 from engines import effects, arms
 from engines.paths import enumerate_paths, classify_return
-from engines.prog import cname, term_str, place_fields
+from engines.prog import op_place, cname, term_str, place_fields
 from engines import terms as T
 
 CONFIGS = ["tls", "notls"]
@@ -73,6 +73,30 @@ def run(ctx, configs=None):
                 if s["k"] == "assign" and place_fields(s["lhs"]) == ["seq"]:
                     writers.add(b.path)
         ctx.ob("C05.counter-ownership", writers <= {ft.path, fs.path}, "the sequence counter is written in %s" % sorted(writers - {ft.path, fs.path}), fn=ft.path, construct="writers")
+        # ... and it is not read or written outside the packet layer either (a getter inlined into a caller shows up there): ids are
+        # arithmetic modulo 256 inside that layer only; a caller comparing or adding ids on its own does it in usize and stalls or
+        # repeats at the wrap
+        for b in prog.non_test_fns():
+            if "packet::PacketConn<" in (b.raw.get("impl_self") or ""):
+                continue
+            touched = False
+            for bb, i, s_ in b.stmts():
+                if s_["k"] != "assign":
+                    continue
+                pls = [s_["lhs"]]
+                rv = s_["rv"]
+                if rv["k"] in ("ref", "rawptr", "discr"):
+                    pls.append(rv["place"])
+                for opk in ("op", "a", "b"):
+                    if opk in rv and isinstance(rv[opk], dict):
+                        pl_ = op_place(rv[opk])
+                        if pl_ is not None:
+                            pls.append(pl_)
+                for pl_ in pls:
+                    if any(isinstance(e, dict) and e.get("n") == "seq" and str(e.get("of") or "").startswith("packet::PacketConn<") for e in pl_.get("p", [])):
+                        touched = True
+            ctx.ob("C05.counter-ownership", not touched, "%s reads or writes the connection's sequence counter directly: outside the packet layer ids are not kept modulo 256" % b.path,
+                   fn=b.path, construct="counter-escapes", nontrivial=False) if touched else None
         # constructor: seq = 0
         rb = fnew.return_blocks()[0]
         o = fnew.origin_place({"l": 0, "p": []}, rb, len(fnew.blocks[rb]["stmts"]))
